@@ -10,12 +10,14 @@ TECHNIQUE = ("Coq proofs (induction over attribute lists, texts, paths and eleme
              "Gallina model of XmlElement's lexer/constructor, ParseAttrs, InplaceXlate and find; the model is tied to "
              "runtime/xml.cpp by differential execution (extracted OCaml vs the real parser under ASan/UBSan, "
              "extensions switched off)")
-LEVEL_TEXT = ("Theorems: c32_attrs_partial (ParseAttrs inverts the attribute printer on NoDup name-shaped keys and "
-              "reference-free values), c32_entity_single_partial / c32_entity_refuted (InplaceXlate inverts escaping "
-              "exactly when the text itself contains nothing reference-shaped; '&lt;' written '&amp;lt;' comes back "
-              "as '<'), c32_find_exact (find = the elements reachable by the path, in document order), "
-              "c32_tree_partial (parse (print t) = t for well-formed trees up to depth 128).  Arbitrary bytes: the "
-              "model is total; model and code must agree on {tree, parse error} and no sanitizer report may occur.")
+LEVEL_TEXT = ("Theorems (all closed under the global context): c32_tree_partial (parse_doc (print_el t) = t for every tree of any "
+              "width and depth <= MaxDepth = 128 with name-shaped tags/keys, NoDup keys, reference-free text and values); "
+              "c32_attrs_partial (ParseAttrs inverts the attribute printer); c32_entity_single_partial / "
+              "c32_entity_numeric_partial (InplaceXlate inverts named, decimal and hexadecimal escaping exactly when the text "
+              "itself contains nothing reference-shaped) with c32_entity_refuted ('&lt;' written '&amp;lt;' comes back as "
+              "'<'), c32_blank_text_refuted, c32_docpath_refuted; c32_find_exact (find = the elements reachable by the path, "
+              "in document order, for every path string); c32_total (the model never runs out of fuel on any byte string).  "
+              "Arbitrary bytes: model and code must agree on {tree, parse error text} and no sanitizer report may occur.")
 LEVEL_NOTE = ("Trusted: Coq kernel, extraction (ExtrOcamlBasic), the hand transcription of xml.cpp (checked by the "
               "correspondence run), libstdc++ istream semantics of >>/peek/putback as transcribed, glibc regexec "
               "leftmost matching in the C locale, ASan/UBSan.  The `char c' re-read after a failed extraction is an "
@@ -343,7 +345,7 @@ def gen_cases(rng, tier):
     thorough = tier == "thorough"
     cs = []
     # ---- kind t, inside the hypotheses of c32_tree_partial
-    ntrees = 1500 if thorough else 330
+    ntrees = 1500 if thorough else 600
     small = []
     for n in range(ntrees):
         depth = rng.choice((0, 1, 2, 3, 4, 6))
@@ -406,7 +408,7 @@ def gen_cases(rng, tier):
             p[i:i] = rng.choice((b"<!-- a - b -- c -->", b"<?pi?>", b"\n", b"\r\n  ", b"<!---->", b"<?xml version=\"1.0\"?>", b"<!-- <x> -->", b" \t "))
         cs.append(bcase(p, "decorated", byte_queries(rng, p)))
     # mutations
-    for _ in range(4000 if thorough else 700):
+    for _ in range(4000 if thorough else 1500):
         t = rand_tree(rng, rng.choice((0, 1, 2, 3)), 3, [rng.choice((2, 5, 12))])
         p = mutate(rng, print_el(t))
         cs.append(bcase(p, "mutated", byte_queries(rng, p)))
@@ -423,7 +425,7 @@ def gen_cases(rng, tier):
             p = p.replace(b"</" + n.tag + b">", b"</" + n.tag[:-1] + b">", 1)
         cs.append(bcase(p, "dup-or-unbalanced"))
     # reference soup through text and attribute values
-    for _ in range(600 if thorough else 120):
+    for _ in range(600 if thorough else 250):
         parts = []
         for _ in range(rng.randrange(1, 7)):
             r = rng.random()
